@@ -51,6 +51,7 @@ type Program struct {
 	Force    bool             `json:"force,omitempty"`
 	ForceAll bool             `json:"forceall,omitempty"`
 	Yes      bool             `json:"yes,omitempty"`
+	NS       []string         `json:"ns,omitempty"` // namespaces under which inc.yml is included; tasks named "<ns>:x" live there
 	Feat     []string         `json:"feat,omitempty"`
 }
 
@@ -150,13 +151,94 @@ func callVars(p *Program, self string, st *Task, cs *CallSite, kind string, idx 
 	return "vars: {" + strings.Join(parts, ", ") + "}"
 }
 
-// Taskfile renders the program as a Taskfile (version 3).
-func (p *Program) Taskfile() string {
+// nsOf returns the namespace a task lives in ("" = the root Taskfile) and its local name.
+func (p *Program) nsOf(name string) (string, string) {
+	for _, ns := range p.NS {
+		if strings.HasPrefix(name, ns+":") {
+			return ns, name[len(ns)+1:]
+		}
+	}
+	return "", name
+}
+
+// Canon maps a task name to the name of its definition as far as deduplication is concerned: a run: once task
+// of a file included under several namespaces is ONE task (the key is the file and the local name), so its copies
+// are projected on the copy of the first namespace. Only leaf once tasks are mirrored (see Includize).
+func (p *Program) Canon(name string) string {
+	if len(p.NS) < 2 {
+		return name
+	}
+	ns, local := p.nsOf(name)
+	if ns == "" || ns == p.NS[0] {
+		return name
+	}
+	if t := p.Tasks[name]; t != nil && t.run() == "once" {
+		return p.NS[0] + ":" + local
+	}
+	return name
+}
+
+// refIn renders a reference to task `to` as written in the file of namespace `from`.
+func (p *Program) refIn(from, to string) string {
+	ns, local := p.nsOf(to)
+	switch {
+	case from == "":
+		return to
+	case ns == from:
+		return local
+	case ns == "":
+		return ":" + to // a root task, from an included file
+	default:
+		return ":" + to
+	}
+}
+
+// Taskfile renders the root Taskfile (version 3); Files gives every file of the program.
+func (p *Program) Taskfile() string { return p.render("") }
+
+func (p *Program) Files() map[string]string {
+	m := map[string]string{"Taskfile.yml": p.render("")}
+	if len(p.NS) > 0 {
+		m["inc.yml"] = p.render(p.NS[0])
+		for _, ns := range p.NS[1:] {
+			if p.render(ns) != m["inc.yml"] {
+				panic("program " + p.ID + ": the tasks of namespace " + ns + " are not a copy of those of " + p.NS[0])
+			}
+		}
+	}
+	return m
+}
+
+// AllFiles is the text of every file, for replays.
+func (p *Program) AllFiles() string {
+	s := p.render("")
+	if len(p.NS) > 0 {
+		s += "\n# ---- inc.yml ----\n" + p.render(p.NS[0])
+	}
+	return s
+}
+
+func (p *Program) render(file string) string {
 	var b strings.Builder
-	b.WriteString("version: '3'\nsilent: true\ntasks:\n")
-	for _, name := range p.Order {
-		t := p.Tasks[name]
-		fmt.Fprintf(&b, "  %s:\n", name)
+	b.WriteString("version: '3'\nsilent: true\n")
+	if file == "" && len(p.NS) > 0 {
+		b.WriteString("includes:\n")
+		for _, ns := range p.NS {
+			fmt.Fprintf(&b, "  %s: ./inc.yml\n", ns)
+		}
+	}
+	b.WriteString("tasks:\n")
+	for _, full := range p.Order {
+		t := p.Tasks[full]
+		ns, local := p.nsOf(full)
+		if ns != file {
+			continue
+		}
+		name := full
+		if file != "" {
+			name = "{{.TASK}}" // the file is included under several namespaces: the task prints the name it was given
+		}
+		fmt.Fprintf(&b, "  %s:\n", local)
 		if t.Run != "" {
 			fmt.Fprintf(&b, "    run: %s\n", t.Run)
 		}
@@ -194,13 +276,13 @@ func (p *Program) Taskfile() string {
 			for j, d := range t.Deps {
 				d := d
 				if len(d.For) > 0 || len(d.Mat) > 0 {
-					fmt.Fprintf(&b, "      - for: %s\n        task: %s\n", forOf(d.For, d.Mat), d.Task)
+					fmt.Fprintf(&b, "      - for: %s\n        task: %s\n", forOf(d.For, d.Mat), yq(p.refIn(file, d.Task)))
 					if v := callVars(p, name, t, &d, "d", j+1); v != "" {
 						fmt.Fprintf(&b, "        %s\n", v)
 					}
 					continue
 				}
-				fmt.Fprintf(&b, "      - task: %s\n", d.Task)
+				fmt.Fprintf(&b, "      - task: %s\n", yq(p.refIn(file, d.Task)))
 				if v := callVars(p, name, t, &d, "d", j+1); v != "" {
 					fmt.Fprintf(&b, "        %s\n", v)
 				}
@@ -248,15 +330,15 @@ func (p *Program) Taskfile() string {
 					}
 				case "call":
 					if len(c.CS.For) > 0 || len(c.CS.Mat) > 0 {
-						fmt.Fprintf(&b, "      - for: %s\n        task: %s\n", forOf(c.CS.For, c.CS.Mat), c.CS.Task)
+						fmt.Fprintf(&b, "      - for: %s\n        task: %s\n", forOf(c.CS.For, c.CS.Mat), yq(p.refIn(file, c.CS.Task)))
 					} else {
-						fmt.Fprintf(&b, "      - task: %s\n", c.CS.Task)
+						fmt.Fprintf(&b, "      - task: %s\n", yq(p.refIn(file, c.CS.Task)))
 					}
 					if v := callVars(p, name, t, c.CS, "c", idx); v != "" {
 						fmt.Fprintf(&b, "        %s\n", v)
 					}
 				case "dcall":
-					fmt.Fprintf(&b, "      - defer: {task: %s", c.CS.Task)
+					fmt.Fprintf(&b, "      - defer: {task: %s", yq(p.refIn(file, c.CS.Task)))
 					if v := callVars(p, name, t, c.CS, "c", idx); v != "" {
 						fmt.Fprintf(&b, ", %s", v)
 					}
@@ -295,26 +377,26 @@ func tlaMat(m [][]string) string {
 	return "<<" + strings.Join(rows, ", ") + ">>"
 }
 
-func (cs *CallSite) tla() string {
+func (cs *CallSite) tla(p *Program) string {
 	if cs == nil {
 		return `[t |-> "", v |-> "", for |-> <<>>, mat |-> <<>>]`
 	}
-	return fmt.Sprintf(`[t |-> %s, v |-> %s, for |-> %s, mat |-> %s]`, tlaStr(cs.Task), tlaStr(cs.V), tlaSeqStr(cs.For), tlaMat(cs.Mat))
+	return fmt.Sprintf(`[t |-> %s, v |-> %s, for |-> %s, mat |-> %s]`, tlaStr(p.Canon(cs.Task)), tlaStr(cs.V), tlaSeqStr(cs.For), tlaMat(cs.Mat))
 }
 
-func (c *Cmd) tla() string {
+func (c *Cmd) tla(p *Program) string {
 	return fmt.Sprintf(`[k |-> %s, x |-> %d, ign |-> %s, cs |-> %s, for |-> %s, mat |-> %s]`,
-		tlaStr(c.K), c.X, tlaBool(c.Ign), c.CS.tla(), tlaSeqStr(c.For), tlaMat(c.Mat))
+		tlaStr(c.K), c.X, tlaBool(c.Ign), c.CS.tla(p), tlaSeqStr(c.For), tlaMat(c.Mat))
 }
 
-func (t *Task) tla() string {
+func (t *Task) tlaIn(p *Program) string {
 	ds := make([]string, len(t.Deps))
 	for i := range t.Deps {
-		ds[i] = t.Deps[i].tla()
+		ds[i] = t.Deps[i].tla(p)
 	}
 	cs := make([]string, len(t.Cmds))
 	for i := range t.Cmds {
-		cs[i] = t.Cmds[i].tla()
+		cs[i] = t.Cmds[i].tla(p)
 	}
 	vuse := t.VUse
 	if vuse == "" {
@@ -330,12 +412,15 @@ func (p *Program) TLA() string {
 	sort.Strings(names)
 	var ts []string
 	for _, n := range names {
-		ts = append(ts, fmt.Sprintf("%s |-> %s", n, p.Tasks[n].tla()))
+		if p.Canon(n) != n {
+			continue // a copy of a shared run: once definition
+		}
+		ts = append(ts, fmt.Sprintf("(%s :> %s)", tlaStr(n), p.Tasks[n].tlaIn(p)))
 	}
 	var rs []string
 	for _, r := range p.Roots {
 		rs = append(rs, fmt.Sprintf(`[t |-> %s, v |-> %s]`, tlaStr(r.Task), tlaStr(r.V)))
 	}
-	return fmt.Sprintf("[id |-> %s, tasks |-> [%s], roots |-> <<%s>>, n |-> %d, par |-> %s, force |-> %s, forceall |-> %s, yes |-> %s]",
-		tlaStr(p.ID), strings.Join(ts, ", "), strings.Join(rs, ", "), p.N, tlaBool(p.Parallel), tlaBool(p.Force), tlaBool(p.ForceAll), tlaBool(p.Yes))
+	return fmt.Sprintf("[id |-> %s, tasks |-> (%s), roots |-> <<%s>>, n |-> %d, par |-> %s, force |-> %s, forceall |-> %s, yes |-> %s]",
+		tlaStr(p.ID), strings.Join(ts, " @@ "), strings.Join(rs, ", "), p.N, tlaBool(p.Parallel), tlaBool(p.Force), tlaBool(p.ForceAll), tlaBool(p.Yes))
 }
